@@ -280,7 +280,11 @@ def run_comp(pid, unit, tier, seed, keep=False):
         n_ref, bad_refs = complemmas.check_axiom_refs(engine.CONTRACTS)
         for b in bad_refs:
             out["undecided"].append({"what": "in-crate axiom without its certificate: %s" % b})
+        n_cmp, bad_stmts = complemmas.check_axiom_statements(engine.CONTRACTS)
+        for b in bad_stmts:
+            out["undecided"].append({"what": "in-crate axiom no longer states what its certificate proves (after mechanical normalisation): %s" % b})
         out["axiom_references_checked"] = n_ref
+        out["axiom_statements_compared"] = n_cmp
         smt = 0.0
         for r in res:
             n = (r.get("lemmas") or 1) + 1
@@ -297,7 +301,7 @@ def run_comp(pid, unit, tier, seed, keep=False):
         out["checker_cmd"] = "verus comp_<name>.rs --rlimit %s  (%d files generated by tools/complemmas.py from /verif/spec/*.abnf)" % (unit.get("rlimit", 600), len(res))
         out["smt_time_s"] = round(smt, 1)
         out["trusted_base"] = ["Verus + Z3", "/verif/spec/rfc3986.abnf and tools/abnf.py (same reference automata as C01)",
-                               "the axioms axiom_comp_* of contracts/15_comps.rs restate the certificate theorems literally (same hypotheses; Seq<u8> for Seq<int>, cls(..) for the explicit character tests); the correspondence is by inspection"]
+                               "the axioms of contracts/15_comps.rs .. 18_shapes.rs restate certificate theorems; for the 20 axioms that name one theorem the requires / ensures are COMPARED mechanically with the generated certificate on every run after a stated normalisation (complemmas._canon: Seq<u8> for Seq<int>, lang_x(t) for X_run(0, t), named character classes, sqN for seq![..], subrange for skip); axiom_shapes (8 theorems in one) corresponds by inspection"]
         out["wall_s"] = round(time.time() - t0, 1)
         return out
     finally:
@@ -323,13 +327,13 @@ def run_kani(pid, unit, tier, seed, keep=False):
     s = engine.scratch_root()
     try:
         engine.copy_repo(s)
-        k = engine.prepare_kani(s)
         if not hs:
             return out
         # first harness compiles the crate; the others reuse the build
         # all harnesses start together: cargo serialises the one compilation of the crate on its build lock
-        with ThreadPoolExecutor(max_workers=unit.get("jobs", 4)) as ex:
-            results = list(ex.map(lambda h: engine.run_kani(k, h["name"], timeout=h.get("timeout", 900), extra=["-Z", "concrete-playback", "--concrete-playback=print"]), hs))
+        with engine.kani_slot(s) as k:
+            with ThreadPoolExecutor(max_workers=unit.get("jobs", 4)) as ex:
+                results = list(ex.map(lambda h: engine.run_kani(k, h["name"], timeout=h.get("timeout", 900), extra=["-Z", "concrete-playback", "--concrete-playback=print"]), hs))
         out["checker_cmd"] = results[0]["cmd"]
         for h, r in zip(hs, results):
             rec = {"harness": h["name"], "bound": h["bound"], "bounded": True, "wall_s": round(r["wall"], 1)}
